@@ -25,6 +25,9 @@ pub mod typechecker {
         use crate::ast::Identifier;
         #[derive(Clone, Copy, Debug, PartialEq, Eq, PartialOrd, Ord, Hash)]
         pub struct ScopeRef(pub usize);
+        impl ScopeRef {
+            pub const GLOBAL: Self = Self(0);
+        }
         #[derive(Clone, Copy, Debug, PartialEq, Eq, PartialOrd, Ord, Hash)]
         pub struct ResolvedName {
             pub scope: ScopeRef,
@@ -153,6 +156,80 @@ pub mod runtime {
     }
 
     include!("harness.rs");
+}
+
+
+/// C18-U3: the body of `Rt::add` against callees that only keep ghost state (which kinds of item
+/// have been declared so far) and check their preconditions at the call site.
+pub mod add_unit {
+    use crate::typechecker::scope::ScopeRef;
+    pub struct RegistrationError(pub u8);
+    pub struct Items;
+    pub struct Lib {
+        pub items: Items,
+    }
+    pub trait Registerable {
+        fn into_lib(self) -> Lib;
+    }
+    impl Registerable for Lib {
+        fn into_lib(self) -> Lib {
+            self
+        }
+    }
+    /// ghost state + the (symbolic) outcome of every pass
+    pub struct Rt {
+        pub modules: bool,
+        pub types: bool,
+        pub functions: bool,
+        pub constants: bool,
+        pub imports: bool,
+        pub fail: [bool; 5],
+        pub calls: u8,
+        pub precondition_violated: bool,
+    }
+    impl Rt {
+        fn pass(&mut self, k: usize, pre: bool) -> Result<(), RegistrationError> {
+            if !pre {
+                self.precondition_violated = true;
+            }
+            self.calls += 1;
+            if self.fail[k] { Err(RegistrationError(k as u8)) } else { Ok(()) }
+        }
+        /// modules can always be declared
+        pub fn declare_modules(&mut self, _parent: Option<ScopeRef>, _items: &Items) -> Result<(), RegistrationError> {
+            let r = self.pass(0, true);
+            self.modules = true;
+            r
+        }
+        /// requires: the modules the types live in exist
+        pub fn declare_types(&mut self, _scope: ScopeRef, _items: &Items) -> Result<(), RegistrationError> {
+            let r = self.pass(1, self.modules);
+            self.types = true;
+            r
+        }
+        /// requires: modules exist; methods and signatures name registered types
+        pub fn declare_functions(&mut self, _scope: ScopeRef, _items: &Items) -> Result<(), RegistrationError> {
+            let r = self.pass(2, self.modules && self.types);
+            self.functions = true;
+            r
+        }
+        /// requires: modules exist; a constant has a registered type
+        pub fn declare_constants(&mut self, _scope: ScopeRef, _items: &Items) -> Result<(), RegistrationError> {
+            let r = self.pass(3, self.modules && self.types);
+            self.constants = true;
+            r
+        }
+        /// requires: everything a use path can go through (modules, types) or name (types,
+        /// functions, methods, constants) is declared: declare_import looks each segment up
+        pub fn declare_imports(&mut self, _scope: ScopeRef, _items: &Items) -> Result<(), RegistrationError> {
+            let r = self.pass(4, self.modules && self.types && self.functions && self.constants);
+            self.imports = true;
+            r
+        }
+
+        /*@FN_ADD@*/
+    }
+    include!("harness_add.rs");
 }
 
 fn main() {}
